@@ -4,6 +4,7 @@ sys.path.insert(0, os.path.dirname(os.path.dirname(os.path.abspath(__file__))))
 from symx import shims
 shims.import_repo()
 from typing import List
+from xh._untraced import untraced, concrete
 
 from atsim.potentials.config import ConfigParser, FilteredConfigParser
 
@@ -63,6 +64,8 @@ except Exception:  # noqa
 
 TARGETS = {n: "_filtered_config_parser.FilteredConfigParser.__init__/_check_tuple/pair/eam_embed/eam_density/eam_density_fs"
            for n in ("one_view_charged", "one_view_pair", "one_view_eam", "one_view_fs", "two_views_pair", "two_views_eam", "two_views_fs")}
+TARGETS.update({n: "FilteredConfigParser views handed to Configuration.read_from_parser (EAM_Potential_Builder(_FS), Pair_Potential_Builder, tabulation factories)"
+                for n in ("two_tabs_eam", "two_tabs_fs", "two_tabs_pair", "two_tabs_eam_after_plain", "two_tabs_fs_after_plain", "two_tabs_pair_after_plain")})
 
 
 def labels(idx):
@@ -301,6 +304,176 @@ def two_views2_fs_x_x(idx1: List[int], idx2: List[int], second_first: bool) -> b
   return _two(2, idx1, True, idx2, True, second_first)
 
 
+# ---------------------------------------------------------------------------
+# views that are tabulated: the objects built from a view equal those built from a hand-edited copy of the file
+
+TAB_MODELS = (
+  ("setfl", (("Pair", (("Al-Al", "as.constant 1"), ("Cu-Al", "as.constant 2"), ("Ni-Ni", "as.constant 3"))),
+             ("EAM-Embed", (("Al", "as.constant 4"), ("Cu", "as.constant 5"), ("Ni", "as.constant 6"))),
+             ("EAM-Density", (("Cu", "as.constant 7"), ("Ni", "as.constant 8"), ("Al", "as.constant 9"))))),
+  ("setfl_fs", (("Pair", (("Al-Al", "as.constant 1"), ("Cu-Al", "as.constant 2"))),
+                ("EAM-Embed", (("Al", "as.constant 4"), ("Cu", "as.constant 5"))),
+                ("EAM-Density", (("Al->Al", "as.constant 6"), ("Cu->Al", "as.constant 7"), ("Al->Cu", "as.constant 8"), ("Cu->Cu", "as.constant 9"), ("Ni->Cu", "as.constant 10"))))),
+  ("LAMMPS", (("Pair", (("Al-Al", "as.constant 1"), ("Cu-Al", "as.constant 2"), ("Ni-Cu", "as.constant 3"), ("Ni-Ni", "as.constant 4"))),)),
+)
+_TAB_HEAD = "[Tabulation]\ntarget : %s\ncutoff : 4.0\nnr : 5\ncutoff_rho : 3.0\nnrho : 4\n"
+
+
+def tab_text(model, species=None, exclude=False):
+  """the model file; with `species` given, the copy from which the unwanted entries were deleted by hand"""
+  target, sections = TAB_MODELS[model]
+  out = [_TAB_HEAD % target]
+  for sec, items in sections:
+    out.append("[%s]" % sec)
+    for k, v in items:
+      ks = k.split("->") if "->" in k else k.split("-")
+      if species is not None:
+        if exclude and any(x in species for x in ks):
+          continue
+        if not exclude and not all(x in species for x in ks):
+          continue
+      out.append("%s : %s" % (k, v))
+  return "\n".join(out) + "\n"
+
+
+def tab_signature(parser):
+  """what tabulating from `parser` is made of: species in order, the functions identified by their values"""
+  from atsim.potentials.config import Configuration
+  try:
+    tab = Configuration().read_from_parser(parser)
+  except Exception as e:  # noqa
+    return ("raises", type(e).__name__)
+  sig = [("target", type(tab).__name__)]
+  for p in tab.potentials:
+    sig.append(("pair", p.speciesA, p.speciesB, p.energy(1.0)))
+  for p in getattr(tab, "eam_potentials", ()):
+    dens = p.electronDensityFunction
+    if isinstance(dens, dict):
+      dens = tuple(sorted((k, f(1.0)) for k, f in dens.items()))
+    else:
+      dens = dens(1.0)
+    sig.append(("eam", p.species, p.embeddingFunction(1.0), dens))
+  return tuple(sig)
+
+
+TAB_PARSERS = [ConfigParser(io.StringIO(tab_text(m))) for m in range(len(TAB_MODELS))]
+TAB_UNIV = ("Al", "Cu", "Ni", "Zz")
+# species lists a view is made with: every subset of three labels (one of them unknown to the models)
+TAB_SUBSETS = ((), ("Al",), ("Cu",), ("Al", "Cu"), ("Zz",), ("Zz", "Al"), ("Cu", "Zz"), ("Cu", "Al", "Zz"))
+_EXPECTED = {}
+
+
+def _tab_expected(model, species, exclude):
+  # (memoised: always computed from a freshly parsed copy of the hand-edited text)
+  k = (model, None if species is None else tuple(species), exclude)
+  if k not in _EXPECTED:
+    _EXPECTED[k] = tab_signature(ConfigParser(io.StringIO(tab_text(model, species, exclude))))
+  return _EXPECTED[k]
+
+
+def _conc(idx1, ex1, idx2, ex2, second_first, plain_first):
+  # traced: every symbolic input becomes a plain value by indexing / branching
+  s1 = [concrete(x) for x in TAB_SUBSETS[idx1]]
+  s2 = [concrete(x) for x in TAB_SUBSETS[idx2]]
+  return (s1, True if ex1 else False, s2, True if ex2 else False, True if second_first else False, True if plain_first else False)
+
+
+def _tabs(model, s1, ex1, s2, ex2, second_first, plain_first):
+  cp = TAB_PARSERS[model]
+  bad = []
+  if plain_first and tab_signature(cp) != _tab_expected(model, None, False):
+    bad.append(("unfiltered", None, None))
+  v1, v2 = make_view(cp, s1, ex1), make_view(cp, s2, ex2)
+  order = [(v2, s2, ex2, "second"), (v1, s1, ex1, "first")] if second_first else [(v1, s1, ex1, "first"), (v2, s2, ex2, "second")]
+  for v, s_, ex, who in order:
+    got, want = tab_signature(v), _tab_expected(model, s_, ex)
+    if got != want:
+      bad.append((who, got, want))
+  # and the parsed file itself is left as it was
+  if plain_first and tab_signature(cp) != _tab_expected(model, None, False):
+    bad.append(("unfiltered-afterwards", None, None))
+  return bad
+
+
+def two_tabs_eam(idx1: int, ex1: bool, idx2: int, ex2: bool, second_first: bool) -> bool:
+  """
+  pre: 0 <= idx1 < 8 and 0 <= idx2 < 8
+  post: _
+  """
+  a = _conc(idx1, ex1, idx2, ex2, second_first, False)
+  with untraced():
+    return not _tabs(0, *a)
+
+
+def two_tabs_eam_after_plain(idx1: int, ex1: bool, idx2: int, ex2: bool, second_first: bool) -> bool:
+  """
+  pre: 0 <= idx1 < 8 and 0 <= idx2 < 8
+  post: _
+  """
+  # the unfiltered file is tabulated first, and once more after the views
+  a = _conc(idx1, ex1, idx2, ex2, second_first, True)
+  with untraced():
+    return not _tabs(0, *a)
+
+
+def two_tabs_fs(idx1: int, ex1: bool, idx2: int, ex2: bool, second_first: bool) -> bool:
+  """
+  pre: 0 <= idx1 < 8 and 0 <= idx2 < 8
+  post: _
+  """
+  a = _conc(idx1, ex1, idx2, ex2, second_first, False)
+  with untraced():
+    return not _tabs(1, *a)
+
+
+def two_tabs_fs_after_plain(idx1: int, ex1: bool, idx2: int, ex2: bool, second_first: bool) -> bool:
+  """
+  pre: 0 <= idx1 < 8 and 0 <= idx2 < 8
+  post: _
+  """
+  # the unfiltered file is tabulated first, and once more after the views
+  a = _conc(idx1, ex1, idx2, ex2, second_first, True)
+  with untraced():
+    return not _tabs(1, *a)
+
+
+def two_tabs_pair(idx1: int, ex1: bool, idx2: int, ex2: bool, second_first: bool) -> bool:
+  """
+  pre: 0 <= idx1 < 8 and 0 <= idx2 < 8
+  post: _
+  """
+  a = _conc(idx1, ex1, idx2, ex2, second_first, False)
+  with untraced():
+    return not _tabs(2, *a)
+
+
+def two_tabs_pair_after_plain(idx1: int, ex1: bool, idx2: int, ex2: bool, second_first: bool) -> bool:
+  """
+  pre: 0 <= idx1 < 8 and 0 <= idx2 < 8
+  post: _
+  """
+  # the unfiltered file is tabulated first, and once more after the views
+  a = _conc(idx1, ex1, idx2, ex2, second_first, True)
+  with untraced():
+    return not _tabs(2, *a)
+
+
+def _rp_tabs(model, idx1, ex1, idx2, ex2, second_first, plain_first):
+  s1, s2 = list(TAB_SUBSETS[idx1]), list(TAB_SUBSETS[idx2])
+  bad = _tabs(model, s1, ex1, s2, ex2, second_first, plain_first)
+  if not bad:
+    return False, "tabulations from the views equal those of the hand-edited files", "agree"
+  # alone: each view tabulated from a freshly parsed file
+  alone = []
+  for s_, ex in ((s1, ex1), (s2, ex2)):
+    fresh = ConfigParser(io.StringIO(tab_text(model)))
+    alone.append(tab_signature(make_view(fresh, s_, ex)) != _tab_expected(model, s_, ex))
+  who, got, want = bad[0]
+  return True, "%s target: views (%s=%r) and (%s=%r) of one parsed file tabulated %s%s: the %s tabulation is built from %r, the hand-edited file gives %r" % (
+    TAB_MODELS[model][0], "exclude" if ex1 else "include", s1, "exclude" if ex2 else "include", s2, "second first" if second_first else "in order",
+    ", after the unfiltered file" if plain_first else "", who, got, want), ("tabulated-single-view" if any(alone) else "tabulated-views-interfere")
+
+
 def _rp_one(model, idx, exclude):
   cp, names = views_of(model)
   species = mlabels(model, idx)
@@ -332,6 +505,12 @@ def _rp_two(model, idx1, ex1, idx2, ex2, second_first):
 
 
 REPLAY = dict(
+  two_tabs_eam=lambda idx1, ex1, idx2, ex2, second_first: _rp_tabs(0, idx1, ex1, idx2, ex2, second_first, False),
+  two_tabs_fs=lambda idx1, ex1, idx2, ex2, second_first: _rp_tabs(1, idx1, ex1, idx2, ex2, second_first, False),
+  two_tabs_pair=lambda idx1, ex1, idx2, ex2, second_first: _rp_tabs(2, idx1, ex1, idx2, ex2, second_first, False),
+  two_tabs_eam_after_plain=lambda idx1, ex1, idx2, ex2, second_first: _rp_tabs(0, idx1, ex1, idx2, ex2, second_first, True),
+  two_tabs_fs_after_plain=lambda idx1, ex1, idx2, ex2, second_first: _rp_tabs(1, idx1, ex1, idx2, ex2, second_first, True),
+  two_tabs_pair_after_plain=lambda idx1, ex1, idx2, ex2, second_first: _rp_tabs(2, idx1, ex1, idx2, ex2, second_first, True),
   one_view_pair=lambda idx, exclude: _rp_one(0, idx, exclude), one_view_eam=lambda idx, exclude: _rp_one(1, idx, exclude),
   one_view_fs=lambda idx, exclude: _rp_one(2, idx, exclude),
   one_view_charged=lambda idx, exclude: _rp_one(3, idx, exclude),
